@@ -722,8 +722,7 @@ Proof.
 Qed.
 
 (* ------------------------------------------------------------------ before the match nothing is in flight *)
-Definition NInv (s : state) : Prop :=
-  s_rp s = None -> s_net s = [] /\ match s_rd s with Some r => rd_wp r = None | None => True end.
+Definition NInv (s : state) : Prop := s_rd s = None -> s_net s = [] /\ s_rp s = None.
 
 Lemma poke_rp_none cf s : s_rp s = None -> poke cf s = s.
 Proof. intros H. unfold poke. rewrite H. reflexivity. Qed.
@@ -735,11 +734,55 @@ Proof.
   destruct (write_message cf (s_now s) (s_changes s) p) as [p1 out]. exists p1. split; [reflexivity|exact Hs].
 Qed.
 
+Lemma poke_rd cf s : s_rd (poke cf s) = s_rd s.
+Proof. unfold poke. destruct (s_rp s); [|reflexivity]. destruct (write_message _ _ _ _). reflexivity. Qed.
+
+Lemma deliver_sub_W_rd cf s m : s_rd (deliver_sub_W cf s m) = s_rd s.
+Proof.
+  unfold deliver_sub_W. destruct (s_rp s); [|reflexivity]. destruct m; try reflexivity.
+  - destruct (on_acknack _ _ _ _ _ _ _) as [[p1 o] sm]. destruct (sm && _); reflexivity.
+  - destruct (on_nackfrag _ _ _ _ _ _ _). reflexivity.
+Qed.
+
+Lemma fold_W_rd cf l : forall s, s_rd (fold_left (deliver_sub_W cf) l s) = s_rd s.
+Proof.
+  induction l as [|m t IH]; intros s; cbn [fold_left]; [reflexivity|].
+  rewrite IH. apply deliver_sub_W_rd.
+Qed.
+
+(* deliveries never create or forget the reader *)
+Lemma deliver_dgram_rd cf s d :
+  match s_rd s with
+  | Some _ => exists r', s_rd (deliver_dgram cf s d) = Some r'
+  | None => s_rd (deliver_dgram cf s d) = None
+  end.
+Proof.
+  unfold deliver_dgram. destruct (dg_toR d).
+  - destruct (s_rdead s); [destruct (s_rd s); eauto|]. destruct (s_rd s) as [r|] eqn:Er; [|assumption].
+    destruct (rd_alive r); [|rewrite Er; eauto]. destruct (deliver_subs_R _ _ _ _). cbn. eauto.
+  - rewrite fold_W_rd. destruct (s_rd s); eauto.
+Qed.
+
+Lemma pump_rd cf fuel : forall s n,
+  match s_rd s with
+  | Some _ => exists r', s_rd (fst (pump fuel cf s n)) = Some r'
+  | None => s_rd (fst (pump fuel cf s n)) = None
+  end.
+Proof.
+  induction fuel as [|f IHf]; intros s n; cbn [pump].
+  { destruct (s_rd s); eauto. }
+  destruct (s_net s) as [|d t].
+  { destruct (s_rd s); eauto. }
+  pose proof (IHf (poke cf (deliver_dgram cf (set_net s t) d)) (n + 1)) as IH. rewrite poke_rd in IH.
+  pose proof (deliver_dgram_rd cf (set_net s t) d) as Hd. cbn [s_rd set_net] in Hd.
+  destruct (s_rd s); [destruct Hd as [r' Hr']; rewrite Hr' in IH; exact IH|rewrite Hd in IH; exact IH].
+Qed.
+
 Lemma deliver_dgram_rp cf s d : forall p, s_rp s = Some p ->
   exists q, s_rp (deliver_dgram cf s d) = Some q /\ rp_static q = rp_static p.
 Proof.
   intros p Hp. unfold deliver_dgram. destruct (dg_toR d).
-  - destruct (s_rdead s); [eauto|]. destruct (s_rd s); [|eauto].
+  - destruct (s_rdead s); [eauto|]. destruct (s_rd s) as [r|]; [|eauto]. destruct (rd_alive r); [|eauto].
     destruct (deliver_subs_R _ _ _ _). cbn. eauto.
   - revert s p Hp. induction (dg_subs d) as [|m t IH]; intros s p Hp; cbn; [eauto|].
     assert (H : exists q, s_rp (deliver_sub_W cf s m) = Some q /\ rp_static q = rp_static p).
@@ -750,6 +793,15 @@ Proof.
       - pose proof (on_nackfrag_static cf (s_changes s) p sn base set count) as Hs.
         destruct (on_nackfrag _ _ _ _ _ _ _) as [p1 o]. cbn in Hs. cbn. eauto. }
     destruct H as [q [Hq Hqs]]. destruct (IH _ _ Hq) as [q' [Hq' Hqs']]. exists q'. split; [assumption|congruence].
+Qed.
+
+Lemma deliver_dgram_rp_none cf s d : s_rp s = None -> s_rp (deliver_dgram cf s d) = None.
+Proof.
+  intros Hp. unfold deliver_dgram. destruct (dg_toR d).
+  - destruct (s_rdead s); [assumption|]. destruct (s_rd s) as [r|]; [|assumption]. destruct (rd_alive r); [|assumption].
+    destruct (deliver_subs_R _ _ _ _). cbn. assumption.
+  - revert s Hp. induction (dg_subs d) as [|m t IH]; intros s Hp; cbn [fold_left]; [assumption|].
+    apply IH. unfold deliver_sub_W. rewrite Hp. assumption.
 Qed.
 
 Lemma pump_rp cf fuel : forall s n p, s_rp s = Some p ->
@@ -772,81 +824,72 @@ Proof.
   match goal with |- context [let '(chs1, inst1) := ?X in _] => destruct X as [chs1 inst1] end. cbn. tauto.
 Qed.
 
-(* once a reader proxy exists it stays, with the same static fields *)
-Lemma step_rp cf s a p : s_rp s = Some p ->
-  exists q, s_rp (fst (step cf s a)) = Some q /\ rp_static q = rp_static p.
-Proof.
-  intros Hp. unfold step.
-  assert (H : exists q, s_rp (fst (act cf s a)) = Some q /\ rp_static q = rp_static p).
-  { destruct a; cbn [act].
-    - (* AWrite *) pose proof (do_write_frame cf s key len sum) as (Hf & _).
-      destruct (do_write cf s key len sum) as [s1 code]. cbn [fst] in *. rewrite Hf. eauto.
-    - (* ARemove *) cbn. eauto.
-    - (* ATick *) cbn. eauto.
-    - (* ADeliver *) destruct (nth_error (s_net s) i); [|eauto]. cbn [fst]. apply deliver_dgram_rp. exact Hp.
-    - (* ADrop *) destruct (nth_error (s_net s) i); cbn; eauto.
-    - (* ADup *) destruct (nth_error (s_net s) i); [|eauto]. cbn [fst].
-      destruct (deliver_dgram_rp cf (set_net s (remove_nth i (s_net s))) d p Hp) as [q [Hq Hs]].
-      destruct (poke_rp_some cf _ q Hq) as [q2 [Hq2 Hs2]].
-      destruct (deliver_dgram_rp cf _ d q2 Hq2) as [q3 [Hq3 Hs3]]. exists q3. split; [assumption|congruence].
-    - (* APump *) pose proof (pump_rp cf pump_fuel s 0 p Hp) as H. destruct (pump pump_fuel cf s 0). exact H.
-    - (* ATake *) destruct (s_rd s); cbn; eauto.
-    - (* AMatch *) destruct (s_rd s); [eauto|]. rewrite Hp. rewrite orb_true_r. eauto.
-    - (* ADelReader *) cbn. eauto.
-    - (* ADelPart *) cbn. eauto.
-    - (* AWfa *) destruct (is_acked _ _); cbn; eauto.
-    - (* AWfaPoll *) destruct (poll (s_waits s)). cbn. eauto.
-    - (* AWfh *) destruct (s_rd s) as [r|]; [|eauto]. destruct (negb _); [eauto|]. destruct (hist_received _); cbn; eauto.
-    - (* AWfhPoll *) destruct (s_rd s) as [r|]; [|eauto]. destruct (poll (rd_hwaits r)). cbn. eauto.
-    - (* AQuery *) cbn. eauto.
-    - (* ANow *) cbn. eauto. }
-  destruct H as [q [Hq Hs]]. destruct (act cf s a) as [s1 o]. cbn [fst] in *.
-  destruct (poke_rp_some cf s1 q Hq) as [q2 [Hq2 Hs2]]. exists q2. split; [assumption|congruence].
-Qed.
-
 Lemma pump_nil cf fuel s n : s_net s = [] -> pump fuel cf s n = (s, n).
 Proof. intros H. destruct fuel; cbn; [reflexivity|]. rewrite H. reflexivity. Qed.
 
+(* once a reader exists (alive or deleted) there is one for ever: no second match *)
+Lemma step_rd_some cf s a r : s_rd s = Some r -> exists r', s_rd (fst (step cf s a)) = Some r'.
+Proof.
+  intros Er. unfold step.
+  assert (H : exists r', s_rd (fst (act cf s a)) = Some r').
+  { destruct a; cbn [act].
+    - pose proof (do_write_frame cf s key len sum) as (_ & Hf & _).
+      destruct (do_write cf s key len sum) as [s1 code]. cbn [fst] in *. rewrite Hf. eauto.
+    - cbn. eauto.
+    - cbn. eauto.
+    - destruct (nth_error (s_net s) i); [|eauto]. cbn [fst].
+      pose proof (deliver_dgram_rd cf (set_net s (remove_nth i (s_net s))) d) as Hd. cbn [s_rd set_net] in Hd.
+      rewrite Er in Hd. exact Hd.
+    - destruct (nth_error (s_net s) i); cbn; eauto.
+    - destruct (nth_error (s_net s) i); [|eauto]. cbn [fst].
+      pose proof (deliver_dgram_rd cf (set_net s (remove_nth i (s_net s))) d) as Hd. cbn [s_rd set_net] in Hd.
+      rewrite Er in Hd. destruct Hd as [r1 Hr1].
+      pose proof (deliver_dgram_rd cf (poke cf (deliver_dgram cf (set_net s (remove_nth i (s_net s))) d)) d) as Hd2.
+      rewrite poke_rd, Hr1 in Hd2. exact Hd2.
+    - pose proof (pump_rd cf pump_fuel s 0) as Hp. rewrite Er in Hp. destruct (pump pump_fuel cf s 0). exact Hp.
+    - rewrite Er. destruct (rd_alive r); cbn; eauto.
+    - rewrite Er. eauto.
+    - cbn. rewrite Er. cbn. eauto.
+    - cbn. rewrite Er. cbn. eauto.
+    - destruct (is_acked _ _); cbn; eauto.
+    - destruct (poll (s_waits s)). cbn. eauto.
+    - rewrite Er. destruct (negb (rd_alive r)); [eauto|]. destruct (negb (rd_tl r)); [eauto|].
+      destruct (hist_received _); cbn; eauto.
+    - rewrite Er. destruct (poll (rd_hwaits r)). cbn. eauto.
+    - eauto.
+    - eauto. }
+  destruct H as [r' Hr']. destruct (act cf s a) as [s1 o]. cbn [fst] in *. rewrite poke_rd. eauto.
+Qed.
+
 Lemma step_NInv cf s a : NInv s -> NInv (fst (step cf s a)).
 Proof.
-  intros H. destruct (s_rp s) as [p|] eqn:Hp.
-  { destruct (step_rp cf s a p Hp) as [q [Hq _]]. intros Hn. congruence. }
-  destruct (H Hp) as [Hnet Hrd]. unfold step.
-  assert (Triv : forall s1, s_rp s1 = None -> s_net s1 = [] ->
-            match s_rd s1 with Some r => rd_wp r = None | None => True end -> NInv (poke cf s1)).
-  { intros s1 A B C. rewrite poke_rp_none by assumption. intros _. tauto. }
+  intros H. destruct (s_rd s) as [r|] eqn:Er.
+  { destruct (step_rd_some cf s a r Er) as [r' Hr']. intros Hn. congruence. }
+  destruct (H eq_refl) as [Hnet Hrp]. unfold step.
+  assert (Triv : forall s1, s_rp s1 = None -> s_net s1 = [] -> NInv (poke cf s1)).
+  { intros s1 A B. rewrite poke_rp_none by assumption. intros _. tauto. }
   destruct a; cbn [act].
   - (* AWrite *) pose proof (do_write_frame cf s key len sum) as (Hf1 & Hf2 & Hf3 & _).
     destruct (do_write cf s key len sum) as [s1 code]. cbn [fst] in *.
-    apply Triv; [congruence|congruence|rewrite Hf2; assumption].
+    apply Triv; congruence.
   - (* ARemove *) cbn [fst]. apply Triv; cbn; assumption.
   - (* ATick *) cbn [fst]. apply Triv; cbn; assumption.
   - (* ADeliver *) rewrite Hnet. destruct i; cbn [nth_error fst]; apply Triv; assumption.
   - (* ADrop *) rewrite Hnet. destruct i; cbn [nth_error fst]; apply Triv; assumption.
   - (* ADup *) rewrite Hnet. destruct i; cbn [nth_error fst]; apply Triv; assumption.
   - (* APump *) rewrite (pump_nil cf pump_fuel s 0 Hnet). cbn [fst]. apply Triv; assumption.
-  - (* ATake *) destruct (s_rd s) as [r|] eqn:Er; cbn [fst]; apply Triv; cbn; try assumption.
-    rewrite Er. assumption.
-  - (* AMatch *) destruct (s_rd s) as [r|] eqn:Er.
-    + cbn [fst]. apply Triv; try assumption. rewrite Er. assumption.
-    + rewrite Hp. rewrite orb_false_r. destruct (s_rdead s).
-      * cbn [fst]. apply Triv; try assumption. rewrite Er. exact I.
-      * destruct (rxo_ok cf rel tl).
-        -- cbn [fst]. intros Hn. exfalso.
-           match type of Hn with s_rp (poke cf (poke cf ?st)) = None =>
-             destruct (poke_rp_some cf st _ eq_refl) as [q [Hq _]];
-             destruct (poke_rp_some cf _ q Hq) as [q2 [Hq2 _]] end.
-           congruence.
-        -- cbn [fst]. apply Triv; cbn; try assumption. reflexivity.
-  - (* ADelReader *) cbn [fst]. apply Triv; cbn; try assumption. exact I.
-  - (* ADelPart *) cbn [fst]. apply Triv; cbn; try assumption. exact I.
+  - (* ATake *) rewrite Er. cbn [fst]. apply Triv; assumption.
+  - (* AMatch *) rewrite Er, Hrp. rewrite orb_false_r. destruct (s_rdead s).
+    + cbn [fst]. apply Triv; assumption.
+    + destruct (rxo_ok cf rel tl); cbn [fst].
+      * intros Hn. rewrite !poke_rd in Hn. cbn in Hn. discriminate.
+      * intros Hn. rewrite poke_rd in Hn. cbn in Hn. discriminate.
+  - (* ADelReader *) cbn [fst]. apply Triv; cbn; try assumption; reflexivity.
+  - (* ADelPart *) cbn [fst]. apply Triv; cbn; try assumption; reflexivity.
   - (* AWfa *) destruct (is_acked (s_rp s) (s_last s)); cbn [fst]; apply Triv; cbn; assumption.
   - (* AWfaPoll *) destruct (poll (s_waits s)). cbn [fst]. apply Triv; cbn; assumption.
-  - (* AWfh *) destruct (s_rd s) as [r|] eqn:Er; [|cbn [fst]; apply Triv; try assumption; rewrite Er; exact I].
-    destruct (negb (rd_tl r)); [cbn [fst]; apply Triv; try assumption; rewrite Er; assumption|].
-    destruct (hist_received (rd_wp r)); cbn [fst]; apply Triv; cbn; assumption.
-  - (* AWfhPoll *) destruct (s_rd s) as [r|] eqn:Er; [|cbn [fst]; apply Triv; try assumption; rewrite Er; exact I].
-    destruct (poll (rd_hwaits r)). cbn [fst]. apply Triv; cbn; assumption.
+  - (* AWfh *) rewrite Er. cbn [fst]. apply Triv; assumption.
+  - (* AWfhPoll *) rewrite Er. cbn [fst]. apply Triv; assumption.
   - (* AQuery *) cbn [fst]. apply Triv; assumption.
   - (* ANow *) cbn [fst]. apply Triv; assumption.
 Qed.
